@@ -130,7 +130,14 @@ WMovePkgIn ==
            @@ (<<"p", "t">> :> <<>>) @@ (PB :> LibB(PB)) @@ (T :> <<>>),
          {P}, <<<<"p", "a">>>>, {<<"p", "s">>}, {<<"p", "t">>, T}, {}, {}, {})
 
-WorldsMove == {WMove, WMoveBusy}
+\* the destination already refers to the source: after the move it has the name itself
+WMoveBack ==
+  MWorld("moveback",
+         (A :> <<>>) @@ (S :> SrcBody) @@ (T :> <<Import(<<ImpItem(S, "")>>), Use(<<"s", "v">>, FALSE)>>)
+           @@ (B :> LibB(B)) @@ (C :> LibC(C)),
+         {}, <<A>>, {S}, {T}, {}, {}, {})
+
+WorldsMove == {WMove, WMoveBusy, WMoveBack}
 WorldsMovePkg == {WMovePkg, WMovePkgIn}
 
 \* modules to relocate: p.b (library), p.c (imports its sibling relatively), d (top level),
@@ -157,6 +164,7 @@ WRelocInit ==
 WorldsReloc == {WReloc, WRelocIn}
 WorldsRelocInit == {WRelocInit}
 WorldsRelIn == {WMovePkgIn, WRelocIn}
+WorldsAsMoved == {WMove, WMovePkg, WReloc}
 
 WorldsFlat == {WFlat, WFlatAll}
 WorldsReexp == {WReexp, WReexpAttr}
